@@ -257,7 +257,7 @@ func init() {
 		ID:    "C10",
 		Level: "exploration",
 		Rule: "literal contents are all strings of up to k atoms over an alphabet rich in < > & ; # quotes, letters/digits that spell existing entities (&lt; &amp;lt; &#39; &#34 …) and UTF-8, in both quote styles, placed in every usage context of the statement (printed, concatenated, assigned, array element printed/indexed/iterated, object field, ternary arm, then() argument, insert argument, insert block, component argument, slot body, layout text) and under raw(); 12 contexts in which the value is first used by a concatenation through then()/rand()/an element access or by append/prepend/slice/reverse on the same array and only then printed; component arguments that read page variables named like other keys of the call; literals spanning lines (LF, CRLF, CR) or holding '%' through strings, files and Response (page and custom error page); " +
-			"the rendered segment is isolated by delimiters and must contain no raw < or >, only entity '&'s, the same quotes, unescape to the literal byte for byte; raw() must give the literal exactly. round 9: branches next to empty bodies, stored literals across blocks; scale: literals to 4 MiB, 1000 literals; concurrent replay; round 11: string built-ins on the stored literal; distinct_nontrivial = distinct (context, literal, quote) sources",
+			"the rendered segment is isolated by delimiters and must contain no raw < or >, only entity '&'s, the same quotes, unescape to the literal byte for byte; raw() must give the literal exactly. round 9: branches next to empty bodies, stored literals across blocks; scale: literals to 4 MiB, 1000 literals; concurrent replay; round 11: string built-ins on the stored literal; round 13: variables across insert blocks, second use of a slotted component; distinct_nontrivial = distinct (context, literal, quote) sources",
 		Assumptions: []string{
 			"a literal is written with a backslash before its delimiter quote; contents ending in a backslash or containing backslash-quote cannot be written and are skipped",
 		},
